@@ -1,0 +1,157 @@
+//! Verification hooks. Compiled only with the cargo feature `verif` (off by default).
+//!
+//! - a facade that re-exports the crate's internal `pub` items so that an external harness
+//!   can drive the real code in-process (nothing is re-implemented here);
+//! - a logical clock override for `date_utils::now()`;
+//! - fault points for the batch writer.
+#![allow(unused_imports)]
+
+pub mod configuration {
+    pub use crate::configuration::*;
+}
+pub mod database {
+    pub use crate::database::*;
+}
+pub mod date_utils {
+    pub use crate::date_utils::*;
+}
+pub mod discret {
+    pub use crate::discret::*;
+}
+pub mod event_service {
+    pub use crate::event_service::*;
+}
+pub mod network {
+    pub use crate::network::*;
+}
+pub mod peer_connection_service {
+    pub use crate::peer_connection_service::*;
+}
+pub mod security {
+    pub use crate::security::*;
+}
+pub mod signature_verification_service {
+    pub use crate::signature_verification_service::*;
+}
+pub mod synchronisation {
+    pub use crate::synchronisation::*;
+}
+
+/// Logical clock. When set, `date_utils::now()` returns this value instead of the wall clock.
+/// With `auto_step > 0` every read advances the clock by that many milliseconds.
+pub mod clock {
+    use std::sync::atomic::{AtomicBool, AtomicI64, Ordering};
+
+    static ENABLED: AtomicBool = AtomicBool::new(false);
+    static NOW: AtomicI64 = AtomicI64::new(0);
+    static STEP: AtomicI64 = AtomicI64::new(0);
+
+    pub fn get() -> Option<i64> {
+        if ENABLED.load(Ordering::SeqCst) {
+            Some(NOW.fetch_add(STEP.load(Ordering::SeqCst), Ordering::SeqCst))
+        } else {
+            None
+        }
+    }
+    pub fn set(t: i64) {
+        NOW.store(t, Ordering::SeqCst);
+        ENABLED.store(true, Ordering::SeqCst);
+    }
+    pub fn set_auto_step(step: i64) {
+        STEP.store(step, Ordering::SeqCst);
+    }
+    pub fn advance(dt: i64) -> i64 {
+        NOW.fetch_add(dt, Ordering::SeqCst) + dt
+    }
+    pub fn clear() {
+        ENABLED.store(false, Ordering::SeqCst);
+    }
+}
+
+/// Fault points: a named point can be armed to fail (return `true` from `hit`) or abort the
+/// process at its k-th hit. Unarmed points only count.
+pub mod fault {
+    use std::collections::HashMap;
+    use std::sync::Mutex;
+
+    #[derive(Clone, Copy, PartialEq, Eq, Debug)]
+    pub enum Action {
+        Fail,
+        Abort,
+    }
+
+    struct Armed {
+        name: String,
+        at_hit: u64,
+        action: Action,
+    }
+
+    lazy_static::lazy_static! {
+        static ref COUNTS: Mutex<HashMap<String, u64>> = Mutex::new(HashMap::new());
+        static ref ARMED: Mutex<Option<Armed>> = Mutex::new(None);
+        static ref TRACE: Mutex<Vec<String>> = Mutex::new(Vec::new());
+    }
+
+    pub fn arm(name: &str, at_hit: u64, action: Action) {
+        *ARMED.lock().unwrap() = Some(Armed {
+            name: name.to_string(),
+            at_hit,
+            action,
+        });
+    }
+    pub fn disarm() {
+        *ARMED.lock().unwrap() = None;
+    }
+    pub fn reset() {
+        COUNTS.lock().unwrap().clear();
+        TRACE.lock().unwrap().clear();
+        disarm();
+    }
+    pub fn counts() -> HashMap<String, u64> {
+        COUNTS.lock().unwrap().clone()
+    }
+    pub fn trace() -> Vec<String> {
+        TRACE.lock().unwrap().clone()
+    }
+
+    /// returns true when the armed action `Fail` fires at this hit
+    pub fn hit(name: &str) -> bool {
+        let n = {
+            let mut c = COUNTS.lock().unwrap();
+            let e = c.entry(name.to_string()).or_insert(0);
+            *e += 1;
+            *e
+        };
+        TRACE.lock().unwrap().push(name.to_string());
+        let mut armed = ARMED.lock().unwrap();
+        let fire = match armed.as_ref() {
+            Some(a) => (a.name == name || a.name == "*") && a.at_hit == n_or_total(a, n),
+            None => false,
+        };
+        if fire {
+            let action = armed.as_ref().unwrap().action;
+            *armed = None;
+            match action {
+                Action::Abort => std::process::abort(),
+                Action::Fail => return true,
+            }
+        }
+        false
+    }
+
+    fn n_or_total(a: &Armed, n: u64) -> u64 {
+        if a.name == "*" {
+            TRACE.lock().unwrap().len() as u64
+        } else {
+            n
+        }
+    }
+
+    /// an injected database error
+    pub fn error(name: &str) -> rusqlite::Error {
+        rusqlite::Error::SqliteFailure(
+            rusqlite::ffi::Error::new(rusqlite::ffi::SQLITE_IOERR),
+            Some(format!("verif fault injected at {}", name)),
+        )
+    }
+}
